@@ -139,6 +139,16 @@ def coq_props_report(props_file, timeout=600):
                 asked=asked)
 
 
+def coqchk(props_file, timeout=2400):
+    """Independent re-check of the compiled property file and everything it depends on."""
+    mod = "Verif." + props_file[:-2].replace("/", ".")
+    with Lock("coq"):
+        rc, out = sh(["coqchk", "-silent", "-o", "-Q", ".", "Verif", mod], cwd=COQ, timeout=timeout)
+    summary = out[out.find("CONTEXT SUMMARY"):] if "CONTEXT SUMMARY" in out else out[-1500:]
+    axioms = re.search(r"\* Axioms:(.*?)\n\s*\n", summary + "\n\n", re.S)
+    return dict(ok=(rc == 0), axioms=(axioms.group(1).strip() if axioms else "?"), summary=" ".join(summary.split())[:1200])
+
+
 PAIR_RE = re.compile(r"\((\d+)%N,\s*(\d+)%N\)")
 
 
@@ -442,8 +452,14 @@ def standard_run(spec, tier, replay=None):
             # a proof obligation no longer checks
             if not any(v[1] == "" for v in violations):
                 violations.append((write_replay(prop, proof_broken), "no-failing-input-found"))
+        chk = None
+        if tier == "thorough" and spec.props_file and not proof_broken:
+            chk = coqchk(spec.props_file)
+            if not chk["ok"]:
+                violations.append((write_replay(prop, dict(kind="coqchk-failed", detail=chk)), "no-failing-input-found"))
         st = meta.get("stats", {})
         coverage = dict(
+            coqchk=chk,
             obligations=max(obligations, 1), discharged=discharged,
             checker_cmd="make -C /verif/coq %s && coqc -Q . Verif %s   (Print Assumptions under every theorem)" % (" ".join(spec.coq_targets), spec.props_file),
             trusted_base=KERNEL_TB + spec.trusted_base,
